@@ -414,6 +414,26 @@ def gen_db_structural(rng, idx, shared_break=False):
         if rng.random() < 0.4 and fun:
             muts += [ent(w) for w in rng.sample(fun, 1)]
         structural.append({"mutations": muts})
+    if has_pseudo and (shared_break or rng.random() < 0.25):
+        # a custom partial deletion of EXACTLY the main-gene regions a fusion replaces (same main-gene copy vector as the fusion, another
+        # pseudogene vector): the two structures must stay apart
+        order = ["up"] + list(yml["structure"]["cn_regions"]) + ["down"]
+        fus = [m for a in structural for m in a["mutations"] if m[0] == "GENP"]
+        brk_kind = None
+        if fus:
+            t = rng.choice(fus)[1]
+            brk_kind = (t[:-1], "left") if t.endswith("-") else (t.rstrip("+"), "right")
+        else:
+            brk_kind = (rng.choice(list(yml["structure"]["cn_regions"])), rng.choice(["left", "right"]))
+            structural.append({"mutations": [["GENP", brk_kind[0] + ("-" if brk_kind[1] == "left" else "+")]]})
+        if brk_kind[0] in order:
+            k = order.index(brk_kind[0])
+            items = order[:k] if brk_kind[1] == "left" else order[k:]
+            if items:
+                muts = [[name, "deletion:" + ",".join(items)]]
+                if rng.random() < 0.4 and fun:
+                    muts += [ent(w) for w in rng.sample(fun, 1)]
+                structural.append({"mutations": muts})
     for a in structural:
         alleles[f"{name}*{num}.001"] = a
         if rng.random() < 0.25:
